@@ -1614,6 +1614,9 @@ class UnitQuaternion(Quaternion):
             elif len(left) == 1 and isinstance(right, np.ndarray) and right.shape[0] == 3:
                 # pose x stack of vectors
                 return np.array([base.qvmul(left._A, x) for x in right.T]).T
+            elif isinstance(right, np.ndarray) and right.ndim == 2 and right.shape[0] == 3 and len(left) == right.shape[1]:
+                # N quaternions by a 3xN array: column i is rotated by quaternion i
+                return np.array([base.qvmul(q, x) for q, x in zip(left.data, right.T)]).T
             else:
                 raise ValueError('bad operands')
         else:
